@@ -174,6 +174,16 @@ type Cluster struct {
 	protoStrict  bool
 	killProbes   int // close the connection instead of answering the next n CLUSTER NODES requests
 	probesServed int // CLUSTER NODES requests answered with the current generator
+	delayProbes  int // the next n CLUSTER NODES replies (computed on arrival) are written late
+	probeDelay   time.Duration
+}
+
+// DelayProbes makes the nodes write the next n CLUSTER NODES replies d late (the text
+// is the one in force when the request arrived).
+func (cl *Cluster) DelayProbes(n int, d time.Duration) {
+	cl.mu.Lock()
+	cl.delayProbes, cl.probeDelay = n, d
+	cl.mu.Unlock()
 }
 
 // ProbesServed returns how many CLUSTER NODES requests were answered since the
@@ -559,6 +569,10 @@ func (bc *BConn) dispatch(args [][]byte, raw []byte) {
 			cl.mu.Lock()
 			if cl.nodesReply != nil {
 				cl.probesServed++
+			}
+			if cl.delayProbes > 0 {
+				cl.delayProbes--
+				a.Delay = cl.probeDelay
 			}
 			cl.mu.Unlock()
 		} else {
